@@ -11,6 +11,8 @@ pub mod lexer;
 pub mod parser;
 pub mod table;
 pub mod tokens;
+#[cfg(feature = "verif")]
+pub mod verif;
 
 pub trait ToRange {
     fn to_range(&self) -> Range<usize>;
